@@ -35,7 +35,6 @@ type spec struct {
 	EnumStep  int               `json:"enum_step"`
 }
 
-
 func TestWorker(t *testing.T) {
 	path := os.Getenv("VERIF_SPEC")
 	if path == "" {
@@ -135,6 +134,7 @@ func runOne(t *testing.T, p *core.Prop, sp *spec, seed uint64, scen json.RawMess
 
 	rand.Seed(int64(seed))
 	seeded.Seed(seed)
+	simclock.SeedSQLite(uint32(seed>>7) | 1)
 	t0 := time.Now()
 
 	body := func() {
